@@ -465,6 +465,14 @@ def _run_track(case, ctx):
               track=pts, b1=b1, b2=b2)
         _srid(tr, "ENU", "Track.toENUCoords(b2)")
         _base_recorded(tr, b2, "ENU->ENU rebasing", ctx)
+        # there and back without undoing the re-basing first: the re-based track itself must denote the
+        # original positions (a re-basing that leaves some fixes in the old frame cancels out in
+        # ENU(b1)->ENU(b2)->ENU(b1) but not here)
+        side = tr.copy()
+        _need(M.call(side.toGeoCoords), "Track.toGeoCoords() from the re-based ENU track", track=pts, b1=b1, b2=b2)
+        _srid(side, "Geo", "Track.toGeoCoords after re-basing")
+        _track_geo_cmp(side, pts, "%s->ENU(%s)->ENU(b2)->Geo" % (case["start"], form), ctx, composed=True)
+        nconv += 1
         from tracklib.core.obs_coords import GeoCoords
         _need(M.call(tr.toENUCoords, GeoCoords(b1[0], b1[1], b1[2])), "Track.toENUCoords(b1) on an ENU track",
               track=pts, b1=b1, b2=b2)
